@@ -185,6 +185,18 @@ def case_normalize(ctx, inp):
         if ar is None:
             ctx.note("auto result outside the model")
     has_auto = rec["called"]
+    if rec["res"] is not None:
+        # hypotheses `AutoOK` / `TupGood` of normalize_sum_nonneg / normalize_sum_pos, checked on the real result
+        res_a = rec["res"]
+        bad = len(res_a) != len(shape)
+        for c, sdim in zip(res_a, shape):
+            if isinstance(c, (tuple, list)):
+                bad = bad or not (all(x > 0 for x in c) or tuple(c) == (0,)) or any(x < 0 for x in c)
+            elif not isinstance(c, str):
+                bad = bad or c < 0
+        if bad and well_formed(t, shape, limit):
+            ctx.fail("auto_chunks returned a negative size / a non-positive tuple / the wrong number of entries",
+                     observed=repr(res_a)[:200])
     if ar is not None:
         model = ctx.lean(Sym("normalize"), top_sx(t), shape, limit, ar)
         if model == ["unsupported"]:
